@@ -334,7 +334,7 @@ pub fn tn(n: &Node, unk: &mut usize) -> String {
         Node::Mod(p, args, _) => match (p, args.as_slice()) {
             (Primitive::Dip, [f]) => format!("(TDip {})", tn_list(&f.node, unk)),
             (Primitive::Both, [f]) => format!("(TBoth {})", tn_op(f, unk)),
-            (Primitive::Bracket, [f, g]) => format!("(TBracket {} {})", tn_op(f, unk), tn_list(&g.node, unk)),
+            (Primitive::Bracket, [f, g]) => format!("(TBracket {} {})", tn_op(f, unk), tn_op(g, unk)),
             (Primitive::Rows, [f]) => format!("(TRows {})", tn_op(f, unk)),
             (Primitive::On, [f]) => format!("(TOn {})", tn_op(f, unk)),
             (Primitive::By, [f]) => format!("(TBy {})", tn_op(f, unk)),
@@ -347,7 +347,7 @@ pub fn tn(n: &Node, unk: &mut usize) -> String {
         Node::ImplMod(p, args, _) => match (p, args.as_slice()) {
             (ImplPrimitive::UnBothImpl(sub), [f]) if sub.side.is_none() && sub.num.is_none() => format!("(TUnBoth {})", tn_op(f, unk)),
             (ImplPrimitive::BothImpl(sub), [f]) if sub.side.is_none() && sub.num.is_none() => format!("(TBoth {})", tn_op(f, unk)),
-            (ImplPrimitive::UnBracket, [f, g]) => format!("(TUnBracket {} {})", tn_op(f, unk), tn_list(&g.node, unk)),
+            (ImplPrimitive::UnBracket, [f, g]) => format!("(TUnBracket {} {})", tn_op(f, unk), tn_op(g, unk)),
             (ImplPrimitive::DipN(k), [f]) => format!("(TDipN {k} {})", tn_list(&f.node, unk)),
             _ => {
                 *unk += 1;
